@@ -378,7 +378,8 @@ impl Evaluator {
             | (LuaValue::False, LuaValue::False)
             | (LuaValue::Nil, LuaValue::Nil) => LuaValue::True,
             (LuaValue::Number(a), LuaValue::Number(b)) => {
-                LuaValue::from((a - b).abs() < f64::EPSILON)
+                // Lua compares numbers exactly (IEEE 754): NaN ~= NaN, inf == inf
+                LuaValue::from(a == b)
             }
             (LuaValue::String(a), LuaValue::String(b)) => LuaValue::from(a == b),
             _ => LuaValue::False,
